@@ -221,7 +221,8 @@ pub fn parse_cas_rel_path(rel: &str) -> Option<[u8; 32]> {
     let mut out = [0u8; 32];
     for i in 0..32 {
         let s = hex.get(2 * i..2 * i + 2)?;
-        if !s.bytes().all(|c| c.is_ascii_hexdigit()) {
+        // canonical form only: lower-case digits (the form the store itself produces)
+        if !s.bytes().all(|c| c.is_ascii_digit() || (b'a'..=b'f').contains(&c)) {
             return None;
         }
         out[i] = u8::from_str_radix(s, 16).ok()?;
